@@ -749,3 +749,18 @@ V("c14-fast-path-empty-value", "C14", "M", SUM, "    match = entry_re.fullmatch(
         return {"section": line[:3], "keyword": head[4:], "value": value[:-1]}
     match = entry_re.fullmatch(line)
     if match is None:''', "C14-S9")
+
+# ---------------------------------------------------------------- round 11 (modern idioms)
+_AI_OLD = '''        stripped = obj.strip()
+        if not stripped:
+            return -1
+        return int(stripped)
+'''
+V("c20-eq-walrus-decode", ["C20", "C03", "C04", "C16"], "E", DTY, _AI_OLD, '''        if stripped := obj.strip():
+            return int(stripped)
+        return _MISSING_INTEGER
+''', more=[(DTY, "class AsciiInteger(Adapter):", "_MISSING_INTEGER = -1\n\n\nclass AsciiInteger(Adapter):")])
+V("c20-walrus-decode-zero", ["C20"], "M", DTY, _AI_OLD, '''        if stripped := obj.strip():
+            return int(stripped)
+        return _MISSING_INTEGER
+''', "blank", more=[(DTY, "class AsciiInteger(Adapter):", "_MISSING_INTEGER = 0\n\n\nclass AsciiInteger(Adapter):")])
